@@ -99,12 +99,139 @@ def discharge(F, f, b, kind, detail, defs):
         why = _counter_increment(F, f, b, t, defs)
         if why:
             return why
+    if kind == "assert" and detail == "Overflow":
+        why = _offset_plus_char_len(F, f, b, t, defs)
+        if why:
+            return why
+    if kind == "api" and detail == "Vec::remove":
+        why = _remove_at_found_position(F, f, b, t, defs)
+        if why:
+            return why
     if kind == "api" and detail == "Index::index[str]":
         gs = FL.gates(F, f, [b], defs)
         if any((g.get("callee") or "").endswith("str::is_char_boundary") and g["allowed"] == [True] for g in gs) and \
                 any((g.get("call_def") or "").endswith(("PartialOrd::le", "PartialOrd::ge")) for g in gs):
             return "slicing dominated by a length check and by is_char_boundary checks of the offsets"
     return None
+
+
+def _offset_plus_char_len(F, f, b, t, defs):
+    """`offset + c.len_utf8()` where offset is the position char_indices() gave for a character of a str, or a sum of len_utf8() of
+    characters of one str counted up from 0: a str is at most isize::MAX bytes long, a character at most 4 - no usize overflow"""
+    co = defs.origin_op(t["cond"]) if "cond" in t else {}
+    base = co
+    while base.get("k") == "field":
+        base = base["base"]
+    if not (base.get("k") == "rv" and base["rv"]["k"] == "bin" and base["rv"]["op"] == "AddWithOverflow"):
+        return None
+    rv = base["rv"]
+    sides = [rv["a"], rv["b"]]
+
+    def is_char_len(op):
+        o = defs.origin_op(op) if isinstance(op, dict) and "k" not in op else {}
+        return o.get("k") == "call" and (callee(o["t"]) or callee_def(o["t"]) or "").endswith("char::len_utf8")
+    lens = [x for x in sides if is_char_len(x)]
+    if len(lens) != 1:
+        return None
+    other = sides[0] if sides[1] is lens[0] else sides[1]
+    pl = op_place(other) if isinstance(other, dict) else None
+    if pl is None or f.local_ty(pl["l"]) != "usize":
+        return None
+    o = defs.origin_op(other)
+    bo = o
+    while bo.get("k") == "field":
+        bo = bo["base"]
+    if bo.get("k") == "call":
+        full = ((bo["t"].get("fn") or {}).get("full") or "") + " " + " ".join(str(x) for x in ((bo["t"].get("fn") or {}).get("targs") or []))
+        if "CharIndices" in full and (callee_def(bo["t"]) or callee(bo["t"]) or "").endswith(("Iterator::next", "Iterator::find", "Iterator::last")) and "Enumerate" not in full:
+            return "a character's byte offset in a str (from char_indices) plus its UTF-8 length: at most isize::MAX + 4"
+    # an accumulator: every definition is `= 0` or `= itself + len_utf8()`
+    l = pl["l"]
+    for _ in range(4):
+        dd = defs.whole_defs(l)
+        if len(dd) == 1 and dd[0][2] == "assign" and dd[0][3]["rv"]["k"] == "use" and op_place(dd[0][3]["rv"]["op"]) is not None \
+                and not op_place(dd[0][3]["rv"]["op"])["p"]:
+            l = op_place(dd[0][3]["rv"]["op"])["l"]
+        else:
+            break
+    seen_add = False
+    for dd in defs.whole_defs(l):
+        if dd[2] != "assign":
+            return None
+        r2 = dd[3]["rv"]
+        if r2["k"] == "use" and isinstance(r2["op"].get("k"), dict) and str(r2["op"]["k"].get("bits")) == "0":
+            continue
+        o2 = defs.origin_rv(r2, None, dd[0], 0, ())
+        b2 = o2
+        while b2.get("k") == "field":
+            b2 = b2["base"]
+        if b2.get("k") == "rv" and b2["rv"].get("op") == "AddWithOverflow":
+            pa, pb = (op_place(b2["rv"][k_]) if isinstance(b2["rv"][k_], dict) else None for k_ in ("a", "b"))
+            if (pa is not None and pa["l"] == l and not pa["p"] and is_char_len(b2["rv"]["b"])) or \
+                    (pb is not None and pb["l"] == l and not pb["p"] and is_char_len(b2["rv"]["a"])):
+                seen_add = True
+                continue
+        return None
+    if seen_add and sum(1 for _b, tt in f.calls() if (callee(tt) or callee_def(tt) or "").endswith("str::chars")) == 1:
+        return "a sum of UTF-8 lengths of characters of one str, counted up from 0: at most the length of the str (<= isize::MAX)"
+    return None
+
+
+def _remove_at_found_position(F, f, b, t, defs):
+    """`v.remove(i)` where i is what `v.iter().position(..)` (or find_position) just answered for the same vector and nothing in
+    between can have changed it: the index is in bounds"""
+    if len(t["args"]) < 2:
+        return None
+    o = defs.origin_op(t["args"][1], ("Try>::branch",))
+    bo = o
+    for _ in range(3):
+        while bo.get("k") == "field":
+            bo = bo["base"]
+        if bo.get("k") == "call" and (callee_def(bo["t"]) or callee(bo["t"]) or "").endswith("Try::branch") and bo["t"]["args"]:
+            bo = defs.origin_op(bo["t"]["args"][0])
+        else:
+            break
+    while bo.get("k") == "field":
+        bo = bo["base"]
+    if bo.get("k") != "call":
+        return None
+    nm = (callee_def(bo["t"]) or callee(bo["t"]) or "").rsplit("::", 1)[-1]
+    if nm not in ("position", "find_position"):
+        return None
+    # the vector searched and the vector removed from: the same local (through refs, deref and iter)
+    def root(op):
+        cur = op
+        for _ in range(8):
+            oo = defs.origin_op(cur, ("Deref>::deref", "DerefMut>::deref_mut", "::iter", "IntoIterator>::into_iter", "::as_slice", "::as_mut_slice"))
+            if oo.get("k") == "rv" and oo["rv"]["k"] == "ref":
+                pl = oo["rv"]["place"]
+                if pl["p"] in ([], ["*"]):
+                    if not pl["p"]:
+                        return pl["l"]
+                    cur = {"cp": {"l": pl["l"], "p": []}}
+                    continue
+                return None
+            if oo.get("k") in ("arg",):
+                return ("arg", oo["n"])
+            if oo.get("k") == "local":
+                return oo.get("l")
+            return oo.get("l") if oo.get("k") == "unknown" else None
+        return None
+    r1, r2 = root(bo["t"]["args"][0]), root(t["args"][0])
+    if r1 is None or r1 != r2:
+        return None
+    pb = bo["bb"]
+    if not f.dominates(pb, b):
+        return None
+    # no other call between the search and the removal takes the vector mutably
+    for b2, t2 in f.calls():
+        if b2 in (b, pb) or not (f.can_reach(pb, [b2]) and f.can_reach(b2, [b])):
+            continue
+        for a in t2["args"]:
+            oa = defs.origin_op(a) if isinstance(a, dict) and "k" not in a else {}
+            if oa.get("k") == "rv" and oa["rv"]["k"] == "ref" and oa["rv"].get("mut") and root(a) == r1:
+                return None
+    return "the index was just answered by %s over the same vector and nothing between the search and the removal changes it" % nm
 
 
 def _counter_increment(F, f, b, t, defs):
